@@ -513,6 +513,8 @@ def jobs_C11():
     for F in ('Fq', 'Fr', 'Fp'): jobs.append((f'min {F} limb/byte packing of the 32-bit wrapper', check_w_u32, (F,)))
     for b in ('ark', 'min'):
         for F in ('Fq', 'Fr', 'Fp'): jobs.append((f'{b} {F} checked parsing', check_bytes_checked, (b, F)))
+    for b in ('ark', 'min'):
+        for F in ('Fq', 'Fr', 'Fp'): jobs.append((f'{b} {F} ordering and hashing', check_ord_hash, (b, F)))
     from . import fiat
     for f in ('fq', 'fr', 'fp'):
         # conversions into / out of the Montgomery domain; to_montgomery is decided for unreduced inputs (what from_raw_bytes feeds it)
@@ -758,4 +760,91 @@ def check_w_arith(build, F):
             res, lg = r['result']
             good = len(lg) == 1 and lg[0][0] == kern and [repr(x) for x in lg[0][1]] == ['self', 'other'][:nin] and inner_of(res) is lg[0][2]
             obs.append(Ob(name, 'proved' if good else 'violated', f'calls {[(n, [repr(x) for x in i]) for n, i, o in lg]}', 0, 'mirsym/EUF', None, None if good else {'kind': 'w-arith', 'field': F, 'build': build, 'meth': meth}))
+    return obs
+
+# ---------------------------------------------------------------------------------------------- ordering / hashing (both builds)
+def check_ord_hash(build, F):
+    """Ord::cmp / PartialOrd::partial_cmp are the integer ordering of the canonical values; Hash feeds exactly the canonical bytes"""
+    items = _items(build); obs = []; f = FN[F]; nb = NB[F]; p = FIELDS[F]; n64 = LIMBS64[F]
+    Wr = rf'fields::{f}::u(32|64)::wrapper::{F}'
+    xa = z3.BitVec('xa', 8 * nb); xb = z3.BitVec('xb', 8 * nb); P = z3.BitVecVal(p, 8 * nb)
+    pre = [z3.ULT(xa, P), z3.ULT(xb, P)]
+    def m_to_le_limbs(I, fr, fn, a):
+        v = D(I, a[0])
+        if not isinstance(v, IV): return NotImplemented
+        return [z3.simplify(z3.Extract(64 * i + 63, 64 * i, v.bv)) for i in range(n64)]
+    def m_to_bytes_le(I, fr, fn, a):
+        v = D(I, a[0])
+        if not isinstance(v, IV): return NotImplemented
+        return [z3.simplify(z3.Extract(8 * i + 7, 8 * i, v.bv)) for i in range(nb)]
+    def ordering(I, lt, eq):
+        lt = z3.simplify(lt) if not isinstance(lt, bool) else lt
+        if (lt is True) or (not isinstance(lt, bool) and z3.is_true(lt)) or (not isinstance(lt, bool) and not z3.is_false(lt) and I.ctx.decide(lt)): return Enum('core::cmp::Ordering', 'Less', [])
+        eq = z3.simplify(eq) if not isinstance(eq, bool) else eq
+        if (eq is True) or (not isinstance(eq, bool) and z3.is_true(eq)) or (not isinstance(eq, bool) and not z3.is_false(eq) and I.ctx.decide(eq)): return Enum('core::cmp::Ordering', 'Equal', [])
+        return Enum('core::cmp::Ordering', 'Greater', [])
+    def m_seq_ord(I, fr, fn, a): return ordering(I, _seq_cmp(I, a[0], a[1], 'lt'), _seq_cmp(I, a[0], a[1], 'eq'))
+    def m_int_ord(I, fr, fn, a):
+        x, y = D(I, a[0]), D(I, a[1])
+        if isinstance(x, int) and isinstance(y, int): return Enum('core::cmp::Ordering', 'Less' if x < y else ('Equal' if x == y else 'Greater'), [])
+        w = x.size() if z3.is_bv(x) else y.size()
+        X = z3.BitVecVal(x, w) if isinstance(x, int) else x; Y = z3.BitVecVal(y, w) if isinstance(y, int) else y
+        return ordering(I, z3.ULT(X, Y), X == Y)
+    class Hasher:
+        def __init__(s): s.fed = []
+        def __deepcopy__(s, memo): return s
+    def m_hasher_write(I, fr, fn, a):
+        h_ = a[0]
+        while isinstance(h_, Ref): h_ = I.deref(h_)
+        data = I.deref(a[1]) if isinstance(a[1], (Ref, SliceRef)) else a[1]
+        h_.fed.append(list(data)); return models.UNIT
+    extra = [(rf'^{Wr}::to_le_limbs$', m_to_le_limbs), (rf'^{Wr}::to_bytes_le$', m_to_bytes_le),
+             (r'^<\[u(8|32|64); \d+\] as core::cmp::Ord>::cmp$', m_seq_ord), (r'^<\[u(8|32|64)\] as core::cmp::Ord>::cmp$', m_seq_ord), (r'^core::slice::cmp::<impl core::cmp::Ord for \[.*\]>::cmp$', m_seq_ord),
+             (r'^<u(8|32|64) as core::cmp::Ord>::cmp$', m_int_ord), (r'^core::cmp::impls::<impl core::cmp::Ord for u(8|32|64)>::cmp$', m_int_ord),
+             (r'^<H as core::hash::Hasher>::write$', m_hasher_write), (r' as core::hash::Hasher>::write$', m_hasher_write)] + seq_cmp_models()
+    M = models.base_models(extra_fns=extra)
+    want = {'Less': z3.ULT(xa, xb), 'Equal': xa == xb, 'Greater': z3.UGT(xa, xb)}
+    for fname, hdr in (('cmp', r'^impl Ord for'), ('partial_cmp', r'^impl PartialOrd for')):
+        name = f'{build}:{F} {fname} is the integer ordering of the canonical values'
+        try: it = mirsym.find_item_hdr(items, rf'^fields::{f}::ops::.*::{fname}$', hdr)
+        except Unsupported as e: obs.append(Ob(name, 'inconclusive', str(e), 0, 'mirsym')); continue
+        def body(I, h, it=it):
+            h.locals['a'] = IV(F, xa); h.locals['b'] = IV(F, xb)
+            return I.call_item(it, [Ref(h, 'a', []), Ref(h, 'b', [])])
+        bad = None; npaths = 0; t0 = time.time()
+        for r in _run(items, M, body, name, obs):
+            npaths += 1
+            if 'panic' in r: bad = ('panics: ' + r['panic'], None); break
+            res = r['result']
+            if fname == 'partial_cmp':
+                if not (isinstance(res, Enum) and res.variant == 'Some'): bad = ('partial_cmp returns None', None); break
+                res = res.fields[0]
+            if not (isinstance(res, Enum) and res.variant in want): bad = (f'unexpected result {res!r}'[:120], None); break
+            ans, model = _bv_valid(pre + list(r['path']), want[res.variant], 60000)
+            if ans == 'sat': bad = (f'returns {res.variant} for values {model.get("xa")}, {model.get("xb")}', model); break
+            if ans != 'unsat': bad = ('z3 unknown', None); break
+        if bad is None and npaths: obs.append(Ob(name, 'proved', f'{npaths} paths', time.time() - t0, 'mirsym path + z3 QF_BV'))
+        elif bad is not None:
+            mdl = {'kind': 'ord', 'field': F, 'build': build}
+            if bad[1]:
+                try: mdl.update(a=int(bad[1]['xa']), b=int(bad[1]['xb']))
+                except Exception: pass
+            obs.append(Ob(name, 'violated' if bad[0] != 'z3 unknown' else 'inconclusive', bad[0], time.time() - t0, 'mirsym path + z3 QF_BV', None, mdl))
+    # Hash
+    name = f'{build}:{F} Hash feeds exactly the canonical little-endian bytes'
+    try:
+        it = mirsym.find_item_hdr(items, rf'^fields::{f}::ops::.*::hash', r'^impl Hash for')
+        def bodyh(I, h):
+            h.locals['a'] = IV(F, xa); hs = Hasher(); h.locals['hs'] = hs
+            I.call_item(it, [Ref(h, 'a', []), Ref(h, 'hs', [])]); return hs.fed
+        good = True; n = 0
+        for r in _run(items, M, bodyh, name, obs):
+            n += 1
+            if 'panic' in r: good = False; break
+            fed = [b for chunk in r['result'] for b in chunk]
+            if len(fed) != nb: good = False; break
+            ans, model = _bv_valid(pre + list(r['path']), z3.Concat(*reversed([z3.BitVecVal(b, 8) if isinstance(b, int) else b for b in fed])) == xa, 60000)
+            if ans != 'unsat': good = False; break
+        obs.append(Ob(name, 'proved' if good and n else 'violated', '' if good else 'the hashed bytes are not the canonical bytes of the value', 0, 'mirsym path + z3 QF_BV', None, None if good and n else {'kind': 'hash', 'field': F, 'build': build}))
+    except Unsupported as e: obs.append(Ob(name, 'inconclusive', str(e), 0, 'mirsym'))
     return obs
